@@ -179,6 +179,9 @@ def chunk_specs(tier):
         J('chunks-steady2-b8:S1H2X1R1', 'steady', dict(n=2, batch_bytes=8), dict(S=1, H=2, X=1, R=1), dict(k=0)),
         J('chunks-steady2-b4:S1H2X1R1', 'steady', dict(n=2, batch_bytes=4), dict(S=1, H=2, X=1, R=1), dict(k=0)),
         J('chunks-reelected3-b8:R1H4', 'reelected_cache3', dict(n=3, batch_bytes=8), dict(R=1, H=4)),
+        # batches cut by size: several entries per message, several messages per send call
+        J('batches-pending3-b24:H3', 'pending', dict(n=3, batch_bytes=24), dict(H=3), dict(unrep=6)),
+        J('batches-pipeline3-b24:H2R1', 'reconnect_pipeline', dict(n=3, batch_bytes=24), dict(H=2, R=1), dict(unrep=4)),
         J('chunks-lagging3-b8:H2R1X1', 'lagging', dict(n=3, batch_bytes=8), dict(H=2, R=1, X=1)),
     ]
     if not q:
